@@ -6,7 +6,10 @@
 import sys, os, subprocess, json, shutil, time
 pid, x = sys.argv[1], sys.argv[2]
 root = os.environ.get("SEED_ROOT", "/tmp/seed")
-name = {"A": "C", "B": "D"}[x] if root.endswith("seed2") else ({"A": "E", "B": "F"}[x] if root.endswith("seed3") else x)      # later rounds are stored as <id>C/D, <id>E/F
+import re as _re
+_m = _re.search(r"seed(\d+)$", root)
+_round = int(_m.group(1)) if _m else 1
+name = chr(ord("A") + 2 * (_round - 1) + (0 if x == "A" else 1))      # later rounds are stored as <id>C/D, <id>E/F, <id>G/H ...
 src = "%s/%s/out/%s" % (root, pid, x)
 wt = "/tmp/confirm_%s%s" % (pid, name)
 dst = "/verif/seeded/%s%s" % (pid, name)
